@@ -337,6 +337,12 @@ pub fn c14rows(args: &[String]) {
                 cases.push(("huf4", n, vec![Blk::Comp { lits: Lits::Huf(data.clone(), true, Some(vec![2, 1]), None), seqs: vec![], modes: pre() }], n as u64));
             }
         }
+        // four Huffman streams whose sizes add up to more than 64 KiB (each jump table entry is 16 bits, their sums are not):
+        // 64 equally likely symbols cost 6 bits each
+        for n in [87_000usize, 116_000, 116_520, 120_000, 131_072] {
+            let data: Vec<u8> = (0..n).map(|_| rng.gen_range(0..64u8)).collect();
+            cases.push(("huf4_wide", n, vec![Blk::Comp { lits: Lits::Huf(data, true, Some(vec![1; 63]), None), seqs: vec![], modes: pre() }], n as u64));
+        }
         // sequence counts at the boundaries of the 1, 2 and 3 byte encodings (one literal, then n matches of length 3)
         for n in [1usize, 2, 126, 127, 128, 129, 254, 255, 256, 257, 0x7EFF, 0x7F00, 0x7F01, 40000, 43690, 43691] {
             let mut seqs = vec![(1u32, 4u32, 3u32)];
